@@ -1,40 +1,35 @@
 #!/bin/bash
 # usage: seedcheck.sh <worktree-id> <seed-name> <property> [more properties...]
-# Confirms a seeded defect produced in /tmp/wt/<id> (patch applied there) and runs our checks against it.
+# Confirms a seeded defect produced by a sub-agent (/tmp/wt/<id>.out/patch.diff is canonical; the
+# worktree /tmp/wt/<id> is reset to HEAD + that patch) and runs our checks against it.
+# Never uses git stash (shared between worktrees) and never touches /repo (VERIF_REPO=<worktree>).
 set -u
 export GOFLAGS=-mod=mod GOPROXY=off GOSUMDB=off GOTOOLCHAIN=local
 ID=$1; NAME=$2; shift 2
 WT=/tmp/wt/$ID; OUT=/tmp/wt/$ID.out; DST=/verif/seeded/$NAME
 mkdir -p $DST
 cp -r $OUT/* $DST/ 2>/dev/null
+rm -f $DST/fullsuite.log $DST/foreign_* $DST/*.recovered*
 LOG=$DST/confirm.log; : > $LOG
 echo "== patch" | tee -a $LOG
+git -C $WT checkout -q -- . && git -C $WT clean -fdq
+git -C $WT apply $OUT/patch.diff || { echo "PATCH DOES NOT APPLY" | tee -a $LOG; exit 2; }
 git -C $WT diff > $DST/patch.diff
 git -C $WT diff --stat | tee -a $LOG
 echo "== build+tests with patch" | tee -a $LOG
 (cd $WT && go build ./... && go test -vet=off -count=1 ./... 2>&1 | grep -v "^ok\|no test files" ; echo "tests-exit=${PIPESTATUS[0]}") 2>&1 | tail -5 | tee -a $LOG
-if [ -d $OUT/demo ]; then
-  echo "== demo WITH patch" | tee -a $LOG
-  (cd $OUT/demo && timeout 300 go run . 2>&1 | tail -4; echo "demo-exit=${PIPESTATUS[0]}") | tee -a $LOG
-  echo "== demo WITHOUT patch" | tee -a $LOG
-  git -C $WT stash -q
-  (cd $OUT/demo && timeout 300 go run . 2>&1 | tail -3; echo "demo-exit=${PIPESTATUS[0]}") | tee -a $LOG
-  git -C $WT stash pop -q
-fi
 if [ -f $OUT/seeded_demo_test.go ]; then
   echo "== demo test WITH patch" | tee -a $LOG
   cp $OUT/seeded_demo_test.go $WT/pkg/api/seeded_demo_test.go
-  (cd $WT && timeout 600 go test -vet=off -count=1 -run 'TestSeeded' ./pkg/api/ 2>&1 | tail -4; echo "demo-exit=${PIPESTATUS[0]}") | tee -a $LOG
+  (cd $WT && timeout 900 go test -vet=off -count=1 -run 'TestSeeded' ./pkg/api/ 2>&1 | tail -4; echo "demo-exit=${PIPESTATUS[0]}") | tee -a $LOG
   echo "== demo test WITHOUT patch" | tee -a $LOG
-  git -C $WT stash -q
-  (cd $WT && timeout 600 go test -vet=off -count=1 -run 'TestSeeded' ./pkg/api/ 2>&1 | tail -3; echo "demo-exit=${PIPESTATUS[0]}") | tee -a $LOG
-  git -C $WT stash pop -q
+  git -C $WT apply -R $DST/patch.diff
+  (cd $WT && timeout 900 go test -vet=off -count=1 -run 'TestSeeded' ./pkg/api/ 2>&1 | tail -3; echo "demo-exit=${PIPESTATUS[0]}") | tee -a $LOG
+  git -C $WT apply $DST/patch.diff
   rm -f $WT/pkg/api/seeded_demo_test.go
 fi
 for P in "$@"; do
-  echo "== our check $P against the patch" | tee -a $LOG
-  git -C /repo apply $DST/patch.diff || { echo "PATCH DOES NOT APPLY TO /repo" | tee -a $LOG; continue; }
-  (cd /verif && timeout 1200 ./check $P --tier quick --no-validate --no-evidence 2>&1 | grep "VIOLATION\|RESULT\|INCOMPLETE\|violation kernel" | head -8; echo "check-exit=${PIPESTATUS[0]}") | tee -a $LOG
-  git -C /repo checkout -- .
+  echo "== our check $P against the patch (VERIF_REPO=$WT, /repo untouched)" | tee -a $LOG
+  (cd /verif && VERIF_REPO=$WT timeout 1800 ./check $P --tier quick --no-validate --no-evidence 2>&1 | grep "VIOLATION\|RESULT\|INCOMPLETE\|violation kernel" | head -8; echo "check-exit=${PIPESTATUS[0]}") | tee -a $LOG
 done
 git -C /repo status --short | head -3
